@@ -116,14 +116,19 @@ def allowed_locs(I, fc, entry_env, old_heap):
                 elif o.tag in ("list", "dict", "set"):
                     allowed.add((o.ref, "$"))
                 continue
-            if isinstance(node, ast.Attribute):
-                o = I.force(I.eval(node.value))
-                fld = node.attr
-            elif isinstance(node, ast.Subscript):
-                o = I.force(I.eval(node.value))
-                fld = ast.literal_eval(node.slice)
-            else:
-                raise SpecError("bad modifies location %r" % loc)
+            try:
+                if isinstance(node, ast.Attribute):
+                    o = I.force(I.eval(node.value))
+                    fld = node.attr
+                elif isinstance(node, ast.Subscript):
+                    o = I.force(I.eval(node.value))
+                    fld = ast.literal_eval(node.slice)
+                else:
+                    raise SpecError("bad modifies location %r" % loc)
+            except Raised:
+                continue            # the location does not exist on this path (e.g. missing dict key)
+            if o.tag == "none":
+                continue            # no such object on this path: nothing to allow
             if o.tag != "obj":
                 raise SpecError("modifies %r: base is not an object" % loc)
             allowed.add((o.ref, fld))
